@@ -14,6 +14,7 @@ import (
 	"os"
 	"os/exec"
 	"path/filepath"
+	"strconv"
 	"strings"
 	"sync"
 	"syscall"
@@ -101,6 +102,47 @@ func exited(pid int) bool {
 	return i >= 0 && i+2 < len(b) && (b[i+2] == 'Z' || b[i+2] == 'X')
 }
 
+// ownsPort reports whether process pid itself holds a listening TCP socket on port (another
+// test process may have bound the port a moment after it was found free: then something answers
+// there, but it is not the process under test).
+func ownsPort(pid, port int) bool {
+	inodes := map[string]bool{}
+	for _, f := range []string{"/proc/net/tcp", "/proc/net/tcp6"} {
+		b, err := os.ReadFile(f)
+		if err != nil {
+			continue
+		}
+		for _, line := range strings.Split(string(b), "\n")[1:] {
+			fs := strings.Fields(line)
+			if len(fs) < 10 || fs[3] != "0A" { // 0A = LISTEN
+				continue
+			}
+			i := strings.LastIndexByte(fs[1], ':')
+			if i < 0 {
+				continue
+			}
+			if p, err := strconv.ParseInt(fs[1][i+1:], 16, 32); err == nil && int(p) == port {
+				inodes[fs[9]] = true
+			}
+		}
+	}
+	if len(inodes) == 0 {
+		return false
+	}
+	ents, err := os.ReadDir(fmt.Sprintf("/proc/%d/fd", pid))
+	if err != nil {
+		return false
+	}
+	for _, e := range ents {
+		if l, err := os.Readlink(fmt.Sprintf("/proc/%d/fd/%s", pid, e.Name())); err == nil && strings.HasPrefix(l, "socket:[") {
+			if inodes[strings.TrimSuffix(strings.TrimPrefix(l, "socket:["), "]")] {
+				return true
+			}
+		}
+	}
+	return false
+}
+
 func waitPort(port int, d time.Duration) bool {
 	deadline := time.Now().Add(d)
 	for time.Now().Before(deadline) {
@@ -135,7 +177,9 @@ func runC01Proc(c C01ProcCase, _ bool) *fOutcome {
 		out.Labels["inconclusive-environment"] = true
 		return out
 	}
-	pIn, pPull, pAdmin, pDead := ports[0], ports[1], ports[2], ports[3]
+	// delivery targets: nothing may ever answer there (port 1 is refused; a port "found free" could be
+	// another test process's listener a moment later and would settle the messages)
+	pIn, pPull, pAdmin, pDead := ports[0], ports[1], ports[2], 1
 	var targets []string
 	for k := 0; k < c.Targets; k++ {
 		targets = append(targets, fmt.Sprintf("http://127.0.0.1:%d/t%d", pDead, k))
@@ -173,7 +217,7 @@ func runC01Proc(c C01ProcCase, _ bool) *fOutcome {
 		}
 		deadline := time.Now().Add(20 * time.Second)
 		for _, port := range []int{pIn, pAdmin, pPull} {
-			for !waitPort(port, 50*time.Millisecond) {
+			for !(waitPort(port, 50*time.Millisecond) && ownsPort(cmd.Process.Pid, port)) {
 				// a process that has exited will never listen: stop waiting (signal 0 probes liveness)
 				if cmd.Process.Signal(syscall.Signal(0)) != nil || exited(cmd.Process.Pid) || time.Now().After(deadline) {
 					timedOut := time.Now().After(deadline)
